@@ -8,6 +8,12 @@ CHECKS = {
  "C01": dict(design="6/C01", technique="TLA+ spec TxWire.tla (serialiser + parser with marker detection): exhaustive TLC model of codec sessions and of a byte-fed parser, every model case replayed on the real code, trace validation (Trace_TxWire) of recorded Bytes/ExtendedBytes/TxID/Clone and of every decoding entry point",
              text="TLC exhausts round trip, canonicity, prefix-freedom, truncation and list parsing on model transactions with lengths/counts on the 252/253 boundary and on all byte strings over a marker/varint alphabet up to a bound; the real codec is then bound to the same specification: every model case and thousands of generated, non-minimal, streamed, truncated and corpus inputs are executed and each result (acceptance, consumed bytes, fields, both re-serialisations, txid) is judged by TLC.",
              note="Trusted: TLC, TxWire.tla as the definition of the format (marker rule mirrors Tx.ReadFrom), python hashlib for txid hashes."),
+ "C02": dict(design="6/C02", technique="TLA+ spec SigHash.tla (symbolic FORKID preimage, calibrated on 311 node vectors on every run): exhaustive TLC model over shapes x indices x all 256 hash types with structural invariants, every model case replayed on CalcInputPreimage/CalcInputSignatureHash, trace validation with hash obligations checked by hashlib",
+             text="TLC enumerates every shape/index/hash-type combination of the model and checks the zeroing rules as invariants; each combination and thousands of random transactions are executed on the real code and the returned preimage is matched byte-for-byte against the specification by TLC; embedded hashes and the digest are oracle obligations.",
+             note="Trusted: TLC, SigHash.tla (calibrated against node-generated vectors, which calibrates the spec not go-bt), python hashlib."),
+ "C03": dict(design="6/C03", technique="TLA+ spec SigHash.tla (legacy preimage incl. SINGLE constant, calibrated on 290 node vectors on every run): exhaustive TLC model, model cases replayed on CalcInputPreimageLegacy/CalcInputSignatureHash, trace validation with hash obligations",
+             text="As C02 for the legacy algorithm: blanking, NONE/SINGLE truncation with sequence zeroing, ANYONECANPAY isolation, the SINGLE out-of-range constant, argument errors and purity, all judged by TLC on every model case and on random transactions.",
+             note="Trusted: TLC, SigHash.tla (calibrated against node vectors whose script code has no OP_CODESEPARATOR byte), python hashlib."),
  "C09": dict(design="6/C09", technique="TLA+ spec TxWire.tla parser + Trace_TxWire.TotalOK: trace validation of every decoding entry point on TLC-fed byte strings, random/truncated/bit-flipped inputs and crafted huge length/count fields, in a crash-isolated harness with allocation measurement",
              text="The parser specification defines the only outcomes (value or error) and the consumed-bytes bound; TLC judges every recorded decode call of the real code (outcome, used <= len, measured allocation <= 64*len+256KiB). Panics and process deaths are events no action explains. Conformance of the code to a model-checked parser on enumerated adversarial inputs.",
              note="Trusted: TLC, runtime.MemStats.TotalAlloc as the allocation sensor (measurement judged by the trace spec, not modelled), RLIMIT_AS 6 GiB + intent file to attribute process death."),
